@@ -160,10 +160,11 @@ def spec(prop, tier):
                 elem_runs(["V1", "V3", "F3"], ["PP", "T100"], tier, 3)
         return elem_runs(["F1", "F3", "F4", "V1", "V3", "V5", "M2", "M3"], ["AE", "NP", "PP", "T100", "T010"], tier, 4)
     if prop == "C17":
-        lists = ["F1", "F3", "V1", "V3"]
+        lists = ["F1", "F3", "V1", "V3"] if q else ["F1", "F3", "F4", "V1", "V3", "V5", "M2", "M3"]
         allocs = ["AE", "NP", "PP"]
         runs = []
-        for r in pair_runs(lists, allocs, tier, 4 if q else 5) + elem_runs(lists, allocs, tier, 2 if q else 3):
+        # element histories need depth 3 (two constructions and an assignment between elements of different size)
+        for r in pair_runs(lists, allocs, tier, 4 if q else 5) + elem_runs(lists, allocs, tier, 3 if q else 4):
             r["faults"] = 1
             runs.append(r)
         for l in lists:
@@ -275,7 +276,7 @@ def collect(prop, tier, runs, t0, deadline_s):
                 "sig": sig,
                 "msg": "%s [%s/%s %s] history: %s" % (v["msg"], d["list"], d["alloc"], r["mode"], v["history"]),
                 "payload": {"engine": "engine.cpp", "list": d["list"], "alloc": d["alloc"], "run": r,
-                            "history": v["history"], "monitor": v["monitor"], "message": v["msg"],
+                            "history": v["history"], "fail_at": v.get("fail_at", 0), "monitor": v["monitor"], "message": v["msg"],
                             "occurrences": v["count"]},
             })
     cov["distinct_observations"] = distinct_obs
